@@ -12,6 +12,8 @@ def main():
     r4, p4 = games.walk_traces(chk, events=0, files=1 if q else 2, label="walk_long", long=1100 if q else 1300)
     results, paths = results + r4, paths + p4
     n_events, distinct = games.collect_walk(chk, results, paths)
+    # double pushes landing beside an enemy pawn that is pinned on any line or free (TLC family, every successor judged)
+    games.dblpush_lines(chk)
     st = [r.stats("trace")[0] for r in results]
     files = games.gen_game(chk, "mixed", behaviours=64 if q else 4000, steps=60 if q else 120,
                            max_depth=12 if q else 30, jvms=8 if q else 16)
@@ -27,11 +29,11 @@ def main():
         "distinct_nontrivial": sum(s["specials"] for s in st) + chk.cov["replayed_behaviours"]["special_moves"],
         "rule": "every operation (make/null/undo/undonull) of random walks (engine chooses), of TLC-simulated ChessGame "
                 "behaviours (specification chooses) and of EVERY path of moves/null moves of the bounded model (nesting depth 2 quick / 3 "
-                "thorough from 14 roots, each followed by the take-backs to the root) is compared field by field with the specification's successor / saved "
+                "thorough from 19 roots, each followed by the take-backs to the root) is compared field by field with the specification's successor / saved "
                 "state, three board views included; non-trivial = castling, en passant, promotion or capture-promotion moves played",
         "walk": {k: sum(s[k] for s in st) for k in ("makes", "nulls", "undos", "loads", "maxdepth")},
     })
     chk.sample({"trace_event_ops": "load/make/null/undo/undonull with full projection", "first_trace": paths[0]})
-    chk.assumptions += ["bounded model: 12 roots, nesting depth %d" % chk.cov["mc_depth"],
+    chk.assumptions += ["bounded model: %d roots, nesting depth %d" % (chk.cov["mc_roots"], chk.cov["mc_depth"]),
                         "EpConvention: en-passant target recorded only when an enemy pawn stands beside the pushed pawn"]
     return chk.finish()
